@@ -188,30 +188,6 @@ Definition ev_s2s (evs : list pevent) (s : slot) : bool :=
 Fixpoint count_ev (f : pevent -> bool) (l : list pevent) : nat :=
   match l with [] => O | x :: t => (if f x then 1 else 0)%nat + count_ev f t end.
 
-(* soundness (every signal justified, at most once) is checked at every step; completeness at the step whose
-   operation concerned that slot (the signal must have been raised by the end of that step) *)
-Definition c06_step_ok (e : epoch) (hist : list pstep) (st : pstep) : bool :=
-  let acc := accepted_votes (st :: hist) in
-  let blocks := all_blocks (st :: hist) in
-  let certs := all_certs (st :: hist) in
-  let before := all_events hist in
-  let now := sp_events st in
-  let sound :=
-    forallb (fun x => match x with
-                      | ESafeToNotar b => s2n_cond e acc blocks certs b && negb (ev_s2n before b)
-                                          && Nat.eqb (count_ev (fun y => match y with ESafeToNotar b' => bid_eqb b b' | _ => false end) now) 1
-                      | ESafeToSkip s => s2s_cond e acc s && negb (ev_s2s before s)
-                                         && Nat.eqb (count_ev (fun y => match y with ESafeToSkip s' => s =? s' | _ => false end) now) 1
-                      | _ => true
-                      end) now in
-  let in_bounds s := ob_first_unpruned (sp_obs st) <=? s in
-  let complete :=
-    forallb (fun bp => let b := fst bp in
-                       negb (in_bounds (fst b)) || negb (s2n_cond e acc blocks certs b) || ev_s2n (now ++ before) b) blocks
-    && forallb (fun s => negb (in_bounds s) || negb (s2s_cond e acc s) || ev_s2s (now ++ before) s)
-               (fold_right sset_insert [] (map v_slot acc)) in
-  sound && complete.
-
 (* ---------- specification closure shared by the C07 / C08 oracles ---------- *)
 (* what the held certificates and known parent links justify (Spec of C07/C08):
    direct_final(s,b) = fast-final cert for (s,b), or final cert for s and notar cert for (s,b);
@@ -255,6 +231,32 @@ Fixpoint decided_prefix (fuel : nat) (cs : list cert) (blocks : list (blockid * 
   | O => f
   | S k => if spec_decided cs blocks (f + 1) then decided_prefix k cs blocks (f + 1) else f
   end.
+(* soundness (every signal justified, at most once) is checked at every step; completeness at the step whose
+   operation concerned that slot (the signal must have been raised by the end of that step), for retained
+   slots that are not yet decided (a slot that is finalized / implicitly finalized or skipped by what the node
+   holds needs no fallback vote any more: block registrations for decided slots are ignored by the pool) *)
+Definition c06_step_ok (e : epoch) (hist : list pstep) (st : pstep) : bool :=
+  let acc := accepted_votes (st :: hist) in
+  let blocks := all_blocks (st :: hist) in
+  let certs := all_certs (st :: hist) in
+  let before := all_events hist in
+  let now := sp_events st in
+  let sound :=
+    forallb (fun x => match x with
+                      | ESafeToNotar b => s2n_cond e acc blocks certs b && negb (ev_s2n before b)
+                                          && Nat.eqb (count_ev (fun y => match y with ESafeToNotar b' => bid_eqb b b' | _ => false end) now) 1
+                      | ESafeToSkip s => s2s_cond e acc s && negb (ev_s2s before s)
+                                         && Nat.eqb (count_ev (fun y => match y with ESafeToSkip s' => s =? s' | _ => false end) now) 1
+                      | _ => true
+                      end) now in
+  let in_bounds s := (ob_first_unpruned (sp_obs st) <=? s) && negb (spec_decided certs blocks s) in
+  let complete :=
+    forallb (fun bp => let b := fst bp in
+                       negb (in_bounds (fst b)) || negb (s2n_cond e acc blocks certs b) || ev_s2n (now ++ before) b) blocks
+    && forallb (fun s => negb (in_bounds s) || negb (s2s_cond e acc s) || ev_s2s (now ++ before) s)
+               (fold_right sset_insert [] (map v_slot acc)) in
+  sound && complete.
+
 (* candidate parents: every block mentioned by a certificate or a registration, and genesis *)
 Definition known_blocks (cs : list cert) (blocks : list (blockid * blockid)) : list blockid :=
   (0, 0) :: flat_map (fun c => match cert_hash c with Some h => [(c_slot c, h)] | None => [] end) cs
